@@ -6,7 +6,8 @@ import GV.Model.HeaderSym
   that belongs to C37/C38).
   op:  hdr <c|t> <useed> <slot> <blockNo> <spk> <maxEvo> <ocPeriod> <kesT> <seq> <ctx> <tamper>
   out: lead=<b> ser=<b> valid=<b> lkes=<1|0|e> lopc=<b> errs=<check names>
-  op:  blk <c|t> <useed> <slot> <spk> <ocPeriod> <kesT> <tamper… | seg <i> | flip <off> <bit>>
+  op:  blk <era>[+tx] <useed> <slot> <spk> <ocPeriod> <kesT> <tamper… | seg <i> | flip <off> <bit>>
+       era: shelley allegra mary alonzo babbage conway dijkstra (c, t = babbage, shelley)
   out: lead=<b> dec=<b> vb=<1|0:kind>            (flip: lead=<b> vb=<b>)
 -/
 namespace GV.Drv.C40
@@ -31,6 +32,8 @@ def eraOf (md : String) : Option (Bool × Nat) :=
   | "t" | "shelley" | "allegra" | "mary" => some (true, 3)
   | "alonzo" => some (true, 4)
   | "c" | "babbage" | "conway" => some (false, 4)
+  -- a Dijkstra block is [header, block_body]: one hashed body element
+  | "dijkstra" => some (false, 1)
   | _ => none
 
 structure Built where
@@ -160,7 +163,9 @@ def handleHdr (impl : String) (toks : List String) : Out :=
 
 def handleBlk (impl : String) (toks : List String) : Out :=
   match toks with
-  | md :: _useed :: slot :: spk :: ocPeriod :: kesT :: tam =>
+  | md0 :: _useed :: slot :: spk :: ocPeriod :: kesT :: tam =>
+    -- "+tx": the body carries one transaction (the model sees bodies only through their hash)
+    let md := if md0.endsWith "+tx" then String.ofList (md0.toList.take (md0.length - 3)) else md0
     match parseNat? slot, parseNat? spk, parseNat? ocPeriod, parseNat? kesT with
     | some slot, some spk, some ocPeriod, some kesT =>
       match eraOf md with
